@@ -72,8 +72,49 @@ Fixpoint covered_steps (a b t : list spec) (l : list rcmd) : bool :=
   | c :: r => match kexec t c with Some t' => covered_steps a b t' r | None => false end
   end.
 
+(* The same for addresses under prefix containment: a route to IP/LEN covers the
+   IPv4 addresses that agree with IP in the first LEN bits; probed are the first and
+   the last address of every destination of the old and of the new routes. *)
+Definition ip_num (s : string) : option N :=
+  match cut_char "." s with
+  | Some (a, r1) =>
+      match cut_char "." r1 with
+      | Some (b, r2) =>
+          match cut_char "." r2 with
+          | Some (c, d) =>
+              match parse_dec a, parse_dec b, parse_dec c, parse_dec d with
+              | Some a', Some b', Some c', Some d' => Some (((a' * 256 + b') * 256 + c') * 256 + d')%N
+              | _, _, _, _ => None
+              end
+          | None => None
+          end
+      | None => None
+      end
+  | None => None
+  end.
+Definition host_bits (s : spec) : N := N.of_nat (32 - r_len s).
+Definition covers_addr (s : spec) (x : N) : bool :=
+  match ip_num (r_ip s) with
+  | Some n => N.eqb (N.shiftr n (host_bits s)) (N.shiftr x (host_bits s))
+  | None => false
+  end.
+Definition covered_addr (t : list spec) (x : N) : bool := existsb (fun s => covers_addr s x) t.
+Definition probes (l : list spec) : list N :=
+  flat_map (fun s => match ip_num (r_ip s) with
+                     | Some n => let lo := N.shiftl (N.shiftr n (host_bits s)) (host_bits s) in
+                                 [lo; (lo + N.shiftl 1 (host_bits s) - 1)%N]
+                     | None => []
+                     end) l.
+Fixpoint addr_steps (ps : list N) (a b t : list spec) (l : list rcmd) : bool :=
+  forallb (fun x => if covered_addr a x && covered_addr b x then covered_addr t x else true) ps &&
+  match l with
+  | [] => true
+  | c :: r => match kexec t c with Some t' => addr_steps ps a b t' r | None => false end
+  end.
+
 (* 0 = fine, 1 = a command is refused / not parsable, 2 = wrong final routes,
-   3 = a destination loses its route at an intermediate step. *)
+   3 = a destination loses its route at an intermediate step,
+   4 = an address covered before and after is not covered at an intermediate step. *)
 Definition oracle_routes (dev : rconfig) (parts : list rconfig) (cmds : list icmd) : nat :=
   match parse_config dev, target parts, to_rcmds cmds with
   | Some a, Some b, Some l =>
@@ -82,7 +123,8 @@ Definition oracle_routes (dev : rconfig) (parts : list rconfig) (cmds : list icm
       if negb (nodup_specs sa && nodup_specs sb) then 0   (* outside the theorem's hypotheses *)
       else match kexec_all sa l with
            | Some t => if negb (set_eq t sb) then 2
-                       else if covered_steps sa sb sa l then 0 else 3
+                       else if negb (covered_steps sa sb sa l) then 3
+                       else if addr_steps (probes (sa ++ sb)) sa sb sa l then 0 else 4
            | None => 1
            end
   | Some _, Some _, None => 1
